@@ -72,6 +72,7 @@ type Instance struct {
 	justLoaded bool
 	cacheEpoch int
 	cacheSnap  []byte
+	loadStep   int // scheduler step at which the current incarnation started
 	// recomputed: after a successful run of the recompute-cache tool, the
 	// (index, timestamp) the cache must answer for each entry it read
 	recomputed      map[[32]byte][][2]int64
@@ -104,6 +105,7 @@ func (w *World) startLoad(in *Instance) {
 	in.dead = false
 	in.crashPending = false
 	in.state = stLoading
+	in.loadStep = w.sim.Step
 	in.log = nil
 	in.seqErr, in.loadErr = nil, nil
 	in.rootsFetchFailed = false
